@@ -92,11 +92,13 @@ func checkC08(c *Ctx, r *Report) {
 	r.Assumptions = append(r.Assumptions, "integer conversions do not overflow", "floor division lemma: for d > 0, (q div d) * d <= q")
 	r.rule("C08.R1", "no stored tariff value can crash the handler: divisors proven non-zero, database type assertions checked", 2)
 	r.rule("C08.R2", "Price and AllowedUnits have the statement's form for every Request-Sub-Type possible on the path", 4)
+	r.rule("C08.R6", "stored tariffs are parsed in the full width of the member they are put in, and the tariff is looked up under the request's rating group exactly (no narrowing of parsed numbers or of look-up keys)", 2)
 	r.rule("C08.R3", "server and CHF compute the same unit cost polynomial from the tariff sent in the answer", 2)
 	r.rule("C08.R4", "every path for a found account answers", 1)
 	r.rule("C08.R5", "the handler keeps no state between requests (no captured or package-level variable written)", 1)
 
 	rfRules(c, r, "C08.R1", "C08.R2", "C08.R3", "C08.R4", "C08.R5")
+	rfWidthRules(c, r, "C08.R6")
 }
 
 // rfRules: the rules of the rating server's SUR handler, under the caller's rule names
